@@ -1,6 +1,5 @@
 //go:build go1.25
 
-
 package tasksim
 
 import (
@@ -33,8 +32,9 @@ func RunFetcher(c *sim.Ctx) {
 	parallel := knob("max_parallel_requests", 2, 4)
 	slowPeer := knob("slow_peer", -1, nPeers-1)
 	seed := int64(knob("schedule_seed", 1, 1<<30))
+	interestIgnoresReceipt := knob("interest_ignores_receipt", 0, 1) == 1 // application variant: OnlyInterested keeps naming received items; the receipt report alone must stop the requests
 	nOps := knob("ops", 1, 24)
-	c.ProbeDecl("announced_while_suspended", "item_requested", "item_re_requested_after_timeout", "item_received", "interest_lost", "item_forgotten_by_age", "announce_by_second_peer", "interest_regained_without_announcement")
+	c.ProbeDecl("announced_while_suspended", "item_requested", "item_re_requested_after_timeout", "item_received", "interest_lost", "item_forgotten_by_age", "announce_by_second_peer", "interest_regained_without_announcement", "received_while_announced_under_suspension")
 
 	var plan []stim
 	at := time.Duration(0)
@@ -78,7 +78,7 @@ func RunFetcher(c *sim.Ctx) {
 	}
 
 	rec := &recorder{}
-	probes := map[string]int{}
+	probes := newProbes()
 	var simEnd time.Duration
 	trouble := runBubble(c.T, func() {
 		rand.Seed(seed)
@@ -92,13 +92,15 @@ func RunFetcher(c *sim.Ctx) {
 			interested[i] = true
 		}
 		suspended := false
+		var ml modelLock
 		// oracle state
-		reportedInteresting := make([]bool, nItems)                  // item appeared in an OnlyInterested answer
-		announcedBy := make([]map[int]time.Duration, nItems)          // peer -> first announcement instant
-		lastAnnounce := make([]time.Duration, nItems)                 // latest announcement instant (-1 none)
-		firstAnnounce := make([]time.Duration, nItems)                // oldest live announcement instant
-		settledAt := make([]time.Duration, nItems)                    // instant the item was reported received / lost interest (-1: pending)
+		reportedInteresting := make([]bool, nItems)          // item appeared in an OnlyInterested answer
+		announcedBy := make([]map[int]time.Duration, nItems) // peer -> first announcement instant
+		lastAnnounce := make([]time.Duration, nItems)        // latest announcement instant (-1 none)
+		firstAnnounce := make([]time.Duration, nItems)       // oldest live announcement instant
+		settledAt := make([]time.Duration, nItems)           // instant the item was reported received / lost interest (-1: pending)
 		lastResume := time.Duration(0)
+		announcedSuspended := make([]bool, nItems)
 		var reqs []fetchReq
 		for i := range announcedBy {
 			announcedBy[i] = map[int]time.Duration{}
@@ -107,25 +109,31 @@ func RunFetcher(c *sim.Ctx) {
 		var f *itemsfetcher.Fetcher
 		f = itemsfetcher.New(cfg, itemsfetcher.Callback{
 			OnlyInterested: func(ids []interface{}) []interface{} {
+				ml.mu.Lock()
+				defer ml.mu.Unlock()
 				var r []interface{}
 				for _, id := range ids {
 					i := id.(int)
-					if interested[i] && !received[i] {
+					if interested[i] && (!received[i] || interestIgnoresReceipt) {
 						r = append(r, id)
 						reportedInteresting[i] = true
 					}
 				}
 				return r
 			},
-			Suspend: func() bool { return suspended },
+			Suspend: func() (r bool) {
+				ml.do(func() { r = suspended })
+				return r
+			},
 		})
 		fetchFn := func(peer int) itemsfetcher.ItemsRequesterFn {
 			return func(ids []interface{}) error {
 				t := now()
+				ml.mu.Lock()
 				for _, id := range ids {
 					i := id.(int)
 					reqs = append(reqs, fetchReq{t, peer, i})
-					probes["item_requested"]++
+					probes.inc("item_requested")
 					if _, ok := announcedBy[i][peer]; !ok {
 						rec.violation("fetch-provenance", "fetch-provenance/peer-did-not-announce", "t=%v: item %d requested from peer p%d, which never announced it (announced by %v)", t, i, peer, announcedBy[i])
 					}
@@ -140,6 +148,7 @@ func RunFetcher(c *sim.Ctx) {
 						rec.violation("fetch-stop", "fetch-stop", "t=%v: item %d requested from p%d although it was reported %s at %v and not announced since (arrive timeout %v)", t, i, peer, why, settledAt[i], arrive)
 					}
 				}
+				ml.mu.Unlock()
 				if peer == slowPeer {
 					time.Sleep(arrive / 8)
 				}
@@ -162,6 +171,8 @@ func RunFetcher(c *sim.Ctx) {
 			if rec.failed() {
 				return
 			}
+			ml.mu.Lock()
+			defer ml.mu.Unlock()
 			for i := 0; i < nItems; i++ {
 				if lastAnnounce[i] < 0 || settledAt[i] >= 0 || suspended {
 					continue
@@ -171,7 +182,7 @@ func RunFetcher(c *sim.Ctx) {
 					from = lastResume
 				}
 				if t-firstAnnounce[i] > forget-4*arrive { // (about to be) forgotten by age: no claim
-					probes["item_forgotten_by_age"]++
+					probes.inc("item_forgotten_by_age")
 					continue
 				}
 				if t > from+4*arrive && !requestedSince(i, lastAnnounce[i]) {
@@ -188,12 +199,13 @@ func RunFetcher(c *sim.Ctx) {
 			case "announce":
 				peer := int(s.op.A[1])
 				var ids []interface{}
+				ml.mu.Lock()
 				for _, x := range s.op.A[2:] {
 					i := int(x) % nItems
 					ids = append(ids, i)
 					if _, ok := announcedBy[i][peer]; !ok {
 						if len(announcedBy[i]) > 0 {
-							probes["announce_by_second_peer"]++
+							probes.inc("announce_by_second_peer")
 						}
 						announcedBy[i][peer] = t
 					}
@@ -205,43 +217,59 @@ func RunFetcher(c *sim.Ctx) {
 						}
 						settledAt[i] = -1
 						if suspended {
-							probes["announced_while_suspended"]++
+							probes.inc("announced_while_suspended")
+							announcedSuspended[i] = true
 						}
+					} else if interested[i] && received[i] && interestIgnoresReceipt {
+						// announced anew after the receipt and still named interesting: requests may resume (no claim that they do)
+						lastAnnounce[i] = t
 					}
 				}
+				ml.mu.Unlock()
 				_ = f.NotifyAnnounces(fmt.Sprintf("p%d", peer), ids, time.Now(), fetchFn(peer))
 			case "received":
 				i := int(s.op.A[1]) % nItems
-				received[i] = true
-				settledAt[i] = t
-				firstAnnounce[i] = -1
-				probes["item_received"]++
+				ml.do(func() {
+					if announcedSuspended[i] && !received[i] && suspended {
+						probes.inc("received_while_announced_under_suspension")
+					}
+					received[i] = true
+					settledAt[i] = t
+					firstAnnounce[i] = -1
+					probes.inc("item_received")
+				})
 				_ = f.NotifyReceived([]interface{}{i})
 			case "uninterested":
 				i := int(s.op.A[1]) % nItems
-				if interested[i] {
-					interested[i] = false
-					if settledAt[i] < 0 {
-						settledAt[i] = t
+				ml.do(func() {
+					if interested[i] {
+						interested[i] = false
+						if settledAt[i] < 0 {
+							settledAt[i] = t
+						}
+						firstAnnounce[i] = -1
+						probes.inc("interest_lost")
 					}
-					firstAnnounce[i] = -1
-					probes["interest_lost"]++
-				}
+				})
 			case "interested_again":
 				// interest returns long after it was lost (the fetcher had several arrive timeouts to notice the
 				// loss); without a new announcement the item must not be requested again
 				i := int(s.op.A[1]) % nItems
-				if !interested[i] && !received[i] && settledAt[i] >= 0 && t > settledAt[i]+3*arrive {
-					interested[i] = true
-					probes["interest_regained_without_announcement"]++
-				}
+				ml.do(func() {
+					if !interested[i] && !received[i] && settledAt[i] >= 0 && t > settledAt[i]+3*arrive {
+						interested[i] = true
+						probes.inc("interest_regained_without_announcement")
+					}
+				})
 			case "suspend":
-				suspended = true
+				ml.do(func() { suspended = true })
 			case "resume":
-				if suspended {
-					suspended = false
-					lastResume = t
-				}
+				ml.do(func() {
+					if suspended {
+						suspended = false
+						lastResume = t
+					}
+				})
 			}
 		}
 		drive(plan, fire, checkLiveness)
@@ -251,6 +279,7 @@ func RunFetcher(c *sim.Ctx) {
 			checkLiveness(last + time.Duration(k+1)*arrive)
 		}
 		// re-requests of an item that is still pending happen about once per arrive timeout
+		ml.mu.Lock()
 		for i := 0; i < nItems; i++ {
 			n := 0
 			for _, r := range reqs {
@@ -259,13 +288,14 @@ func RunFetcher(c *sim.Ctx) {
 				}
 			}
 			if n >= 2 {
-				probes["item_re_requested_after_timeout"]++
+				probes.inc("item_re_requested_after_timeout")
 			}
 		}
+		ml.mu.Unlock()
 		simEnd = now()
 		f.Stop()
 	})
-	for k, v := range probes {
+	for k, v := range probes.snapshot() {
 		for i := 0; i < v; i++ {
 			c.Probe(k)
 		}
